@@ -924,6 +924,9 @@ fn main() {
             Family { label: "2 threads x <=2 ops, <=3 ops in total, full alphabet", kinds: vec!["O"], nt: 2, alphabet: FULL, min: 0, max: 2, max_total: 3, bound: "2" },
             Family { label: "2 threads x exactly 2 ops, handle alphabet", kinds: vec!["O"], nt: 2, alphabet: HANDLE, min: 2, max: 2, max_total: 4, bound: "2" },
             Family { label: "3 threads x 1 op, full alphabet", kinds: vec!["O"], nt: 3, alphabet: FULL, min: 1, max: 1, max_total: 3, bound: "2" },
+            // The other two pool types share the slab code but have their own thread-safe wrappers
+            // (added after seeded change C02b showed what a quick tier that samples types misses).
+            Family { label: "2 threads x <=2 ops, <=2 ops in total, full alphabet (PinnedPool, BlindPool)", kinds: vec!["P", "B"], nt: 2, alphabet: FULL, min: 0, max: 2, max_total: 2, bound: "2" },
         ]
     };
     let family_filter = std::env::var("C03_FAMILY").ok().and_then(|s| s.parse::<usize>().ok());
